@@ -21,6 +21,9 @@ const (
 var (
 	last     = Epoch
 	symbolic bool
+	once     bool    // symbolic mode: only the next reading is a fresh instant
+	armed    bool
+	Log      []int64 // every instant handed out, in order
 	timers   []*Timer
 	tickers  []*Ticker
 	reads    int
@@ -30,13 +33,20 @@ var (
 func Reset() {
 	last = Epoch
 	symbolic = false
+	once, armed = false, false
+	Log = nil
 	timers = nil
 	tickers = nil
 	reads = 0
 }
 
 // SetSymbolic switches between symbolic and stepping mode.
-func SetSymbolic(on bool) { symbolic = on }
+func SetSymbolic(on bool) { symbolic = on; once = false }
+
+// ArmOnce: the next reading is an arbitrary instant >= the previous one, the readings
+// after it repeat that instant (time may stand still between two readings) until
+// ArmOnce is called again.  One solver variable per armed reading.
+func ArmOnce() { symbolic, once, armed = true, true, true }
 
 // Advance moves the clock forward by d (d >= 0).
 func Advance(d time.Duration) {
@@ -54,6 +64,11 @@ func LastNs() int64 { return last }
 // Now replaces time.Now.
 func Now() time.Time {
 	reads++
+	if symbolic && once && !armed {
+		Log = append(Log, last)
+		return mkTime(last)
+	}
+	armed = false
 	if symbolic {
 		t := vh.Int64("now")
 		vh.Assume(t >= last)
@@ -62,6 +77,7 @@ func Now() time.Time {
 	} else {
 		last += int64(time.Millisecond)
 	}
+	Log = append(Log, last)
 	return mkTime(last)
 }
 
